@@ -132,6 +132,13 @@ class SignEval:
                 if cls:
                     return {'k': 'mask', 'of': base.id, 'cls': cls}
             return {'k': 'mask', 'of': None, 'cls': 'TOP'}
+        if isinstance(e, ast.Compare) and len(e.ops) == 1 and isinstance(e.left, ast.Constant) and e.left.value == 0:
+            base = e.comparators[0]          # canonical spelling writes `W > 0` as `0 < W`
+            if isinstance(base, ast.Name):
+                cls = {ast.Lt: 'POS', ast.Gt: 'NEG'}.get(type(e.ops[0]))
+                if cls:
+                    return {'k': 'mask', 'of': base.id, 'cls': cls}
+            return {'k': 'mask', 'of': None, 'cls': 'TOP'}
         if isinstance(e, ast.Attribute) and e.attr in ('flat', 'T'):
             return self.ev(e.value, env)
         if isinstance(e, ast.BinOp) and isinstance(e.op, ast.Mult):
